@@ -208,6 +208,10 @@ func ruleFlagImplications(w *World, r *RuleResult) {
 			if u.bits > 1<<12 {
 				continue
 			}
+			// the constant of a comparison (res&both == both) is not a raise either
+			if bo, ok := u.user.(*ssa.BinOp); ok && (bo.Op == token.EQL || bo.Op == token.NEQ) {
+				continue
+			}
 			if u.bits&inexact != 0 && u.bits&overflow == 0 {
 				key := mk("Inexact implies Rounded")
 				switch {
@@ -247,16 +251,10 @@ func ruleFlagImplications(w *World, r *RuleResult) {
 					r.ok(key, w.instrPos(u.site), "negateOverflowFlags raises Underflow together with Subnormal", true)
 				default:
 					ok := false
-					hasI, hasS := false, false
-					for _, g := range guardsAt(u.site.Block()) {
-						if c, isCall := g.Cond.(*ssa.Call); isCall && g.Val {
-							switch w.calleeName(c) {
-							case "(Condition).Inexact":
-								hasI = true
-							case "(Condition).Subnormal":
-								hasS = true
-							}
-						}
+					gb := w.guardedBitsAt(u.site.Block())
+					hasI, hasS := gb&inexact != 0, gb&subn != 0
+					if !hasI && seenBefore(u.site, orsBit(inexact)) {
+						hasI = true // Inexact was or-ed in on every path to the site
 					}
 					ok = hasI && hasS
 					if ok {
